@@ -19,6 +19,7 @@ package netpoll
 
 import (
 	"context"
+	"sync"
 	"sync/atomic"
 
 	"github.com/cloudwego/netpoll/internal/runner"
@@ -40,6 +41,7 @@ type onEvent struct {
 	onDisconnectCallback atomic.Value
 	onRequestCallback    atomic.Value
 	closeCallbacks       atomic.Value // value is latest *callbackNode
+	closeCallbacksLock   sync.Mutex   // serializes AddCloseCallback: load-then-store must not interleave
 }
 
 type callbackNode struct {
@@ -83,6 +85,9 @@ func (c *connection) AddCloseCallback(callback CloseCallback) error {
 	}
 	cb := &callbackNode{}
 	cb.fn = callback
+	// two registrations that interleave would both link to the same predecessor and one would be lost
+	c.closeCallbacksLock.Lock()
+	defer c.closeCallbacksLock.Unlock()
 	if pre := c.closeCallbacks.Load(); pre != nil {
 		cb.pre = pre.(*callbackNode)
 	}
